@@ -15,13 +15,13 @@ import (
 
 // Cluster is W-cluster: N real brokers joined over the simulated mesh.
 type Cluster struct {
-	C       *kernel.Ctx
-	Net     *mesh.Network
-	Lic     Lic
-	Opts    []BrokerOpts
-	Brokers []*Broker // nil while a node is down
-	Panics  []string  // Gossiper callbacks that panicked (process exit in the real mesh)
-	gen     []int     // restart generation per node
+	C        *kernel.Ctx
+	Net      *mesh.Network
+	Lic      Lic
+	Opts     []BrokerOpts
+	Brokers  []*Broker // nil while a node is down
+	Panics   []string  // Gossiper callbacks that panicked (process exit in the real mesh)
+	gen      []int     // restart generation per node
 	routeNet map[string]int
 }
 
